@@ -2,9 +2,12 @@
 from __future__ import annotations
 
 import ast
+import re
 from typing import Any, Dict, List, Optional, Tuple
 
 from .. import astutil as A
+from .. import norm as N_
+from .. import strbuild as S
 from .. import cfg as C
 from .. import loader
 from ..core import Ctx
@@ -131,6 +134,91 @@ def _helper_renders_fixed_point(ctx: Ctx, f2: loader.Func) -> Tuple[bool, str]:
     return (True, f"helper {name}(): format(value, 'f')")
 
 
+def _render_form(ctx: Ctx, hf: loader.Func, e: ast.AST) -> Tuple[bool, str]:
+    """How an expression known to hold a Decimal is turned into text."""
+    if isinstance(e, ast.Call):
+        nm = A.call_name(e)
+        if nm == "format" and len(e.args) == 2:
+            lossy = [x.func.attr for x in ast.walk(e.args[0]) if isinstance(x, ast.Call) and isinstance(x.func, ast.Attribute)
+                     and x.func.attr in LOSSY_DECIMAL_METHODS]
+            return (A.const_value(e.args[1]) == "f" and not lossy, f"format({ast.unparse(e.args[0])[:30]}, {A.const_value(e.args[1])!r})")
+        if nm in ("str", "repr", "float"):
+            return (False, f"{nm}(v)")
+        if isinstance(e.func, ast.Attribute) and e.func.attr == "format" and isinstance(e.func.value, ast.Constant):
+            return (str(e.func.value.value).replace(" ", "") in ("{:f}", "{0:f}"), f"{e.func.value.value!r}.format(v)")
+        for callee2 in A.call_index(ctx).callees(hf.module, e):
+            f3 = ctx.repo.funcs.get(callee2)
+            if f3 is not None:
+                return _helper_renders_fixed_point(ctx, f3)
+        return (False, f"{ast.unparse(e)[:40]}")
+    if isinstance(e, ast.JoinedStr):
+        fv = [p for p in e.values if isinstance(p, ast.FormattedValue)]
+        spec = "".join(A.const_value(x) or "" for x in fv[0].format_spec.values) if fv and fv[0].format_spec else ""
+        return (spec == "f" and len(fv) == 1 and all(isinstance(p, ast.FormattedValue) for p in e.values), f"f-string spec {spec!r}")
+    return (False, f"raw value {ast.unparse(e)[:40]}: the raw Decimal is put in the map")
+
+
+def _optional_params_helper(ctx: Ctx, hf: loader.Func):
+    """set_optional_params(params, tuples): ((ok, how Decimals are rendered), node, None values never stored).
+
+    Shape-independent: the value stored for a Decimal is found through the ``isinstance(v, Decimal)`` test wherever it sits
+    (guarding a re-assignment of the value, guarding the store, or inside a conditional expression); 'None is dropped' is a
+    reachability question on the CFG along the edges a None value takes."""
+    loop = [n for n in C.walk_shallow(hf.node) if isinstance(n, ast.For) and isinstance(n.target, ast.Tuple) and len(n.target.elts) == 2
+            and all(isinstance(e, ast.Name) for e in n.target.elts)]
+    ctx.require(loop, f"C17.1: {hf.qualname} is not a loop over (key, value) tuples")
+    kvar, vvar = loop[0].target.elts[0].id, loop[0].target.elts[1].id
+    stores = [s for s in A.stores(hf) if isinstance(s.target, ast.Subscript) and A.dotted(s.target.value) == hf.params[0] and isinstance(s.node, ast.Assign)]
+    ctx.require(stores, f"C17.1: {hf.qualname} does not store into its map parameter")
+
+    def is_dec_test(t: ast.AST) -> bool:
+        return isinstance(t, ast.Call) and A.call_name(t) == "isinstance" and len(t.args) == 2 and A.dotted(t.args[0]) == vvar \
+            and "Decimal" in ast.unparse(t.args[1])
+    form: Optional[Tuple[bool, str]] = None
+    where: ast.AST = stores[0].stmt
+    for st in stores:
+        val = st.node.value
+        dec_val: Optional[ast.AST] = None
+        if isinstance(val, ast.IfExp) and is_dec_test(val.test):
+            dec_val = val.body
+        elif any(isinstance(a, ast.If) and is_dec_test(a.test) and any(A.is_within(st.stmt, b) for b in a.body) for a in A.ancestors(st.stmt)):
+            dec_val = val
+        elif isinstance(val, ast.Name):
+            redefs = [s2 for s2 in A.stores(hf) if isinstance(s2.target, ast.Name) and s2.target.id == val.id and isinstance(s2.node, ast.Assign)
+                      and any(isinstance(a, ast.If) and is_dec_test(a.test) and any(A.is_within(s2.stmt, b) for b in a.body) for a in A.ancestors(s2.stmt))]
+            plain = [s2 for s2 in A.stores(hf) if isinstance(s2.target, ast.Name) and s2.target.id == val.id and isinstance(s2.node, ast.Assign)
+                     and s2 not in redefs and s2.node not in [r.node for r in redefs]]
+            if redefs:
+                dec_val = redefs[0].node.value
+                where = redefs[0].stmt
+            elif len(plain) == 1 and isinstance(plain[0].node.value, ast.IfExp) and is_dec_test(plain[0].node.value.test):
+                dec_val = plain[0].node.value.body
+                where = plain[0].stmt
+        f = _render_form(ctx, hf, dec_val) if dec_val is not None else (False, "no Decimal branch: the raw Decimal is put in the map")
+        if form is None or not f[0]:
+            form = f
+    g = ctx.cfg(hf)
+
+    def none_edge(n, lab) -> bool:
+        if n.kind != "test":
+            return True
+        t = ast.unparse(n.ast)
+        if t == f"{vvar} is None":
+            return lab == "true"
+        if t in (f"{vvar} is not None", f"not {vvar} is None"):
+            return lab == "false"
+        return True
+    seen, stack = {g.entry}, [g.entry]
+    while stack:
+        n = stack.pop()
+        for (m, lab) in n.succ:
+            if m not in seen and none_edge(n, lab):
+                seen.add(m)
+                stack.append(m)
+    drops = not any(x in seen for st in stores for x in g.nodes_for(st.stmt))
+    return form, where, drops
+
+
 def _request_maps(fn: loader.Func) -> Dict[str, List[ast.Call]]:
     """Names passed as data=/qs_params= to make_request/_make_request in this function."""
     out: Dict[str, List[ast.Call]] = {}
@@ -254,53 +342,19 @@ def rule_outbound(ctx: Ctx) -> None:
         hf = ctx.repo.funcs.get(callee)
         ctx.require(hf is not None, f"C17.1: helper {callee} not found")
         ctx.analysed_funcs.add(callee)
-        loopvar = None
-        for n in C.walk_shallow(hf.node):
-            if isinstance(n, ast.For) and isinstance(n.target, ast.Tuple) and len(n.target.elts) == 2:
-                loopvar = n.target.elts[1].id
-        ctx.require(loopvar, f"C17.1: {callee} is not a loop over (key, value) tuples")
-        branches = [n for n in C.walk_shallow(hf.node) if isinstance(n, ast.If) and "isinstance" in ast.unparse(n.test)
-                    and "Decimal" in ast.unparse(n.test)]
-        form = None
-        if branches:
-            for s in branches[0].body:
-                if isinstance(s, ast.Assign) and isinstance(s.value, ast.Call):
-                    nm = A.call_name(s.value)
-                    if nm == "format" and len(s.value.args) == 2:
-                        lossy = [x.func.attr for x in ast.walk(s.value.args[0]) if isinstance(x, ast.Call) and isinstance(x.func, ast.Attribute)
-                                 and x.func.attr in LOSSY_DECIMAL_METHODS]
-                        form = (A.const_value(s.value.args[1]) == "f" and not lossy,
-                                f"format({ast.unparse(s.value.args[0])[:30]}, {A.const_value(s.value.args[1])!r})")
-                    elif nm in ("str", "repr", "float"):
-                        form = (False, f"{nm}(v)")
-                    else:
-                        for callee2 in A.call_index(ctx).callees(hf.module, s.value):
-                            f3 = ctx.repo.funcs.get(callee2)
-                            if f3 is not None:
-                                form = _helper_renders_fixed_point(ctx, f3)
-                elif isinstance(s, ast.Assign) and isinstance(s.value, ast.JoinedStr):
-                    fv = [p for p in s.value.values if isinstance(p, ast.FormattedValue)]
-                    spec = "".join(A.const_value(x) or "" for x in fv[0].format_spec.values) if fv and fv[0].format_spec else ""
-                    form = (spec == "f", f"f-string spec {spec!r}")
-        if form is None:
-            form = (False, "no Decimal branch: the raw Decimal is put in the map")
+        form, where, drops = _optional_params_helper(ctx, hf)
         ctx.check(form[0], "C17.1", f"{callee.rsplit('.', 2)[-2]}.set_optional_params renders Decimals fixed-point "
-                  f"({count} Decimal-typed call-site values flow through it)", hf, branches[0] if branches else hf.node,
+                  f"({count} Decimal-typed call-site values flow through it)", hf, where,
                   form[1], f"Decimal values are rendered as {form[1]}: exponent notation for small/large values "
                   f"({count} order parameters: quantity, price, stopPrice, ... go through this helper)",
                   key_text="set_optional_params decimal branch")
-        # None is dropped
-        drops = any(isinstance(n, ast.If) and ast.unparse(n.test) == f"{loopvar} is None" and any(
-            isinstance(b, ast.Continue) for b in n.body) for n in C.walk_shallow(hf.node))
         ctx.check(drops, "C17.2", f"{callee.rsplit('.', 2)[-2]}.set_optional_params drops unset options", hf, hf.node,
-                  "if v is None: continue", "None values are not dropped", key_text="set_optional_params drops None")
+                  "no store is reachable with a None value", "None values are not dropped", key_text="set_optional_params drops None")
     for mod in (f"{BIN}.client.base", f"{BTS}.client"):
         q = f"{mod}.set_optional_params"
         if q in ctx.repo.funcs and q not in helper_decimal_inflow:
             hf = ctx.repo.funcs[q]
-            lv = "v"
-            drops = any(isinstance(n, ast.If) and " is None" in ast.unparse(n.test) and any(
-                isinstance(b, ast.Continue) for b in n.body) for n in C.walk_shallow(hf.node))
+            _, _, drops = _optional_params_helper(ctx, hf)
             ctx.check(drops, "C17.2", f"{mod.rsplit('.', 2)[-2]}.set_optional_params drops unset options", hf, hf.node,
                       "if v is None: continue", "None values are not dropped", key_text="set_optional_params drops None")
 
@@ -362,25 +416,12 @@ BINANCE_OCO_STATUS = {"EXECUTING": True, "ALL_DONE": False, "REJECT": False}
 
 
 def _path_template(ctx: Ctx, fn: loader.Func, e: ast.AST) -> Optional[str]:
-    if isinstance(e, ast.Constant) and isinstance(e.value, str):
-        return e.value
-    if isinstance(e, ast.JoinedStr):
-        out = ""
-        for p in e.values:
-            if isinstance(p, ast.Constant):
-                out += p.value
-            elif isinstance(p, ast.FormattedValue):
-                out += "{" + (A.dotted(p.value) or "?") + "}"
-        return out
-    if isinstance(e, ast.Name):
-        for s in A.stores(fn):
-            if isinstance(s.target, ast.Name) and s.target.id == e.id and isinstance(s.node, ast.Assign):
-                v = s.node.value
-                if isinstance(v, ast.Call) and isinstance(v.func, ast.Attribute) and v.func.attr == "format" \
-                        and isinstance(v.func.value, ast.Constant):
-                    return v.func.value.value
-                return _path_template(ctx, fn, v)
-    return None
+    """The request path with every interpolated value shown as ``{}`` (independent of f-string / format / temporaries)."""
+    return S.template(S.segments(fn, e))
+
+
+def _norm_template(t: str) -> str:
+    return re.sub(r"\{[^}]*\}", "{}", t)
 
 
 def rule_endpoints(ctx: Ctx) -> None:
@@ -402,7 +443,7 @@ def rule_endpoints(ctx: Ctx) -> None:
         got_verb = A.const_value(c.args[0]) if c.args else None
         got_path = _path_template(ctx, fn, c.args[1]) if len(c.args) > 1 else None
         short = q.split(".", 3)[-1]
-        ctx.check(got_verb == verb and got_path == path, "C17.3", f"{short} -> {verb} {path}", fn, c,
+        ctx.check(got_verb == verb and got_path == _norm_template(path), "C17.3", f"{short} -> {verb} {path}", fn, c,
                   "verb and path as documented", f"request goes to {got_verb} {got_path}, documented: {verb} {path}",
                   key_text=f"endpoint {short}")
         if q.startswith(BIN):
@@ -538,7 +579,10 @@ def rule_inbound(ctx: Ctx) -> None:
         pass
     god = ctx.func(f"{BIN}.helpers.get_optional_decimal")
     src = ast.unparse(god.node)
-    ctx.check("Decimal(price)" in src and "float" not in src, "C17.4", "get_optional_decimal builds the Decimal from the text", god,
+    decs = [c for c in A.func_calls(god) if A.call_name(c) == "Decimal" and c.args and not (isinstance(c.args[0], ast.Constant))]
+    okd = bool(decs) and all(isinstance(c.args[0], ast.Name) and any(".get(" in N_.canon(d) and god.params[0] in N_.canon(d) for d in N_.reaching(god, c.args[0].id))
+                             for c in decs)
+    ctx.check(okd and "float" not in src, "C17.4", "get_optional_decimal builds the Decimal from the text", god,
               god.node, "Decimal(text)", "optional decimal decoder changed", key_text="optional decimal")
 
 
